@@ -8,9 +8,10 @@ A spec is a JSON list of items
 
   {"name": "newman_step",                      Lean name of the definition
    "file": "src/pyunicorn/core/network.py",
-   "func": "Network.newman_betweenness",       Class.method or function
+   "func": "Network.newman_betweenness",       Class.method or function (`name#k`: k-th def of that name)
    "target": "step",                           assigned name | "return" | "subscript:<arr>"
-                                               | "index:<arr>" | "sindex:<arr>" (stored-to subscript) | "call:<f>#<i>"
+                                               | "index:<arr>" (load) | "sindex:<arr>" = "store_index:<arr>"
+                                               (index of a subscript that is assigned to) | "call:<f>#<i>"
    "occurrence": 0,                            which matching statement (default 0)
    "params": [["N","Int"],["max_parts","Int"]],  free names of the expression, with Lean types
    "ret": "Int",                               Lean type of the result
@@ -58,8 +59,14 @@ def find_func(tree, qual):
     node = None
     for p in parts:
         node = None
+        # `name#k` selects the k-th definition of that name (property getter / setter pairs)
+        p, _, skip = p.partition("#")
+        skip = int(skip or 0)
         for n in body:
             if isinstance(n, (ast.FunctionDef, ast.ClassDef, ast.AsyncFunctionDef)) and n.name == p:
+                if skip:
+                    skip -= 1
+                    continue
                 node = n
                 break
         if node is None:
@@ -101,8 +108,9 @@ def find_stmt(func, target, occurrence):
                 and dotted(n.value) == target[len("index:"):] \
                 and isinstance(n.ctx, ast.Load):
             hits.append((n.lineno, n.slice))
-        elif target.startswith("sindex:") and isinstance(n, ast.Subscript) \
-                and dotted(n.value) == target[len("sindex:"):] \
+        elif (target.startswith("sindex:") or target.startswith("store_index:")) \
+                and isinstance(n, ast.Subscript) \
+                and dotted(n.value) == target.split(":", 1)[1] \
                 and isinstance(n.ctx, ast.Store):
             # index expression of a subscript that is assigned to (a[<idx>] = ...)
             hits.append((n.lineno, n.slice))
